@@ -58,6 +58,16 @@ pub fn dp_queries(tier: Tier) -> Vec<DpQuery> {
         dq("SELECT count(*) AS c FROM users u LEFT JOIN ref r ON u.city = r.city", &["users", "ref"], &["ungrouped", "count", "public-join", "outer"]),
         dq("SELECT count(*) AS c FROM ref r LEFT JOIN users u ON u.city = r.city", &["users", "ref"], &["ungrouped", "count", "public-join", "outer-public-preserved"]),
     ];
+    // every ordered pair of {count, sum, avg} over a never-NULL and a nullable column of the same table (both orders):
+    // aggregates of one Reduce that do not count the same rows
+    for a1 in ["count", "sum", "avg"] {
+        for a2 in ["count", "sum", "avg"] {
+            v.push(DpQuery { sql: format!("SELECT {a1}(id) AS x, {a2}(amount) AS y FROM orders"), tables: o.to_vec(), tags: vec!["ungrouped", "two-columns", "fk-path", "nullable"] });
+            v.push(DpQuery { sql: format!("SELECT {a1}(amount) AS x, {a2}(id) AS y FROM orders"), tables: o.to_vec(), tags: vec!["ungrouped", "two-columns", "fk-path", "nullable"] });
+        }
+    }
+    v.push(dq("SELECT count(*) AS c, count(amount) AS ca, avg(amount) AS a FROM orders", o, &["ungrouped", "two-columns", "fk-path", "nullable"]));
+    v.push(dq("SELECT u.city, count(o.amount) AS ca, count(u.age) AS cu FROM users u JOIN orders o ON u.id = o.user_id GROUP BY u.city", o, &["public-key", "two-columns", "join", "nullable"]));
     if tier == Tier::Thorough {
         v.extend(vec![
             dq("SELECT qty, sum(price) AS s FROM items GROUP BY qty", i, &["public-key", "sum", "fk-path-2"]),
